@@ -738,7 +738,7 @@ PROPS = {
         not_covered=['actual heap allocation (runtime behaviour)'],
         level_text='Theorems: after limit+1 bytes every Read fails with the limit error and writes Close 1009; decoded lengths are < 2^63 and top-bit lengths are rejected; '
                    'the default limit constant is regenerated from read.go. Limits around the boundary, changed between messages, and compression bombs are run through model and library.',
-        level_note='stream-level theorems: C08_limit_stream (uncompressed) and C08_limit_stream_compressed (the limit counts DECOMPRESSED bytes, for every inflater: a bomb is cut off after exactly L+1 delivered bytes with Close 1009); bombs > 1000:1 are also run through model and library; memory is a statement about the model\'s state only (the model inflates a whole message before serving it, the library streams: real heap use is not claimed).',
+        level_note='Source tie by translation: C08_limit_hit_is_source, C08_limit_exhausted_is_source, C08_limit_clamp_is_source, C08_initial_limit_is_source — the four decisions of limitReader.Read about the allowance and the value SetReadLimit stores, translated from read.go on every run (Gen/ReadCode.v), are the ones the model takes. stream-level theorems: C08_limit_stream (uncompressed) and C08_limit_stream_compressed (the limit counts DECOMPRESSED bytes, for every inflater: a bomb is cut off after exactly L+1 delivered bytes with Close 1009); bombs > 1000:1 are also run through model and library; memory is a statement about the model\'s state only (the model inflates a whole message before serving it, the library streams: real heap use is not claimed).',
         technique='Coq proof + differential run (limits -1,0,1,125,1000,65536,default; sizes limit-1..much larger; bombs)',
     ),
     'C15': dict(
